@@ -41,9 +41,10 @@ def prop(case, rec):
     for p, c in case['entries']:
         pws += [p] * c
     path = os.path.join(_dir(), 'train.txt')
-    trainer.write_training_file(path, pws, 'utf-8')
+    pc = trainer.write_list(path, case['entries'], 'utf-8', case.get('spelling', 'plain'))
+    rec.cls('list_spelling_' + case.get('spelling', 'plain'))
     out = os.path.join(_dir(), 'R')
-    r = guard(case, trainer.train, path, out, encoding='utf-8', coverage=0.5, ngram=case['ngram'], alphabet_size=case['alphabet_size'])
+    r = guard(case, trainer.train, path, out, encoding='utf-8', coverage=0.5, ngram=case['ngram'], alphabet_size=case['alphabet_size'], prefixcount=pc)
     if not r.ok:
         if r.error is not None and not isinstance(r.error, ZeroDivisionError):
             raise Violation('crash:' + type(r.error).__name__, f'run_trainer raised {r.error!r}', case)
@@ -63,8 +64,15 @@ def prop(case, rec):
             a, b = line.split('\t')
             saved_prob[int(a)] = float(b)
     opt = Optimizer(max_length=4)
-    N = len(r.passes[0])
-    per_level = Counter(find_omen_level(r.omen_trainer, p) for p in r.passes[2])
+    # "the fraction of training passwords at that level": over the occurrences the list holds (as the first pass yields them),
+    # not over whatever the third pass happened to read
+    from lib_trainer.trainer_file_input import check_valid
+    occurrences = [p for p in pws if check_valid(p)]
+    if list(r.passes[0]) != occurrences:
+        raise Violation('first_pass_sequence', f'the first pass read {len(r.passes[0])} passwords, the list holds {len(occurrences)} valid occurrences '
+                        f'(spelling {case.get("spelling", "plain")})', case)
+    N = len(occurrences)
+    per_level = Counter(find_omen_level(r.omen_trainer, p) for p in occurrences)
     # the probability relation needs no enumeration: it is checked for EVERY listed level against the saved keyspace
     unparseable = per_level.get(-1, 0)
     for L in sorted(saved_ks):
@@ -166,7 +174,7 @@ def cases(draw):
             continue
         seen.add(p)
         entries.append([p, draw(st.sampled_from([1, 1, 2, 3, 6]))])
-    return {'entries': entries, 'ngram': ngram, 'alphabet_size': draw(st.sampled_from([100, 100, 3, 2]))}
+    return {'entries': entries, 'ngram': ngram, 'alphabet_size': draw(st.sampled_from([100, 100, 3, 2])), 'spelling': draw(st.sampled_from(trainer.SPELLINGS))}
 
 
 def run_main(rec, seed, shard, nshards, tier):
